@@ -288,24 +288,14 @@ Fixpoint spec_dops (app : N) (pending : list N) (ops : list dop) (obs : list Z) 
   | o :: r, a :: b :: obs' => dop_ok app pending o a b && spec_dops app (dpending_after pending o a b) r obs'
   | _, _ => false
   end.
-(* class 5: this instance accepts an invitation it created itself (rank below the number created so
-   far) and is restarted afterwards: the sys.Invite row is written although the table already knows
-   the invitation, so after the restart it is registered twice *)
-Definition is_restart (o : dop) : bool := match o with DRestart => true | _ => false end.
-Fixpoint own_accept_then_restart (app next : N) (ops : list dop) : bool :=
-  match ops with
-  | [] => false
-  | DCreate _ :: r => own_accept_then_restart app (N.succ next) r
-  | DAccept (InviteFor inv a _) :: r =>
-      (N.ltb inv next && N.eqb a app && existsb is_restart r) || own_accept_then_restart app next r
-  | _ :: r => own_accept_then_restart app next r
-  end.
-(* scenario encoding for the theorems: received invitations carry foreign ids *)
-Fixpoint dops_ok (total : N) (ops : list dop) : bool :=
+(* scenario encoding for the theorems: created invitations are named by their rank; an invitation
+   received from somebody else never has the id of one this instance creates later *)
+Fixpoint dops_ok (next total : N) (ops : list dop) : bool :=
   match ops with
   | [] => true
-  | DAccept (InviteFor inv _ _) :: r => N.ltb total inv && dops_ok total r
-  | _ :: r => dops_ok total r
+  | DCreate _ :: r => dops_ok (N.succ next) total r
+  | DAccept (InviteFor inv _ _) :: r => (N.ltb inv next || N.ltb total inv) && dops_ok next total r
+  | _ :: r => dops_ok next total r
   end.
 Fixpoint n_dcreates (ops : list dop) : N :=
   match ops with [] => 0%N | DCreate _ :: r => N.succ (n_dcreates r) | _ :: r => n_dcreates r end.
@@ -338,10 +328,9 @@ Definition spec_C19 (c : c19case) (obs : list Z) : bool :=
       clamping ignores) ask for each other's token
    3  (fixed 1e2cdf6) an invitation accepted twice was registered twice and consumed twice
    4  (fixed 1c5e321) an owned invitation whose default room could not be granted stayed usable until restart
-   5  an instance accepts an invitation it created itself and restarts: registered twice afterwards *)
+   5  (fixed 4354588) an instance that accepted its own invitation registered it twice after a restart *)
 Definition known_C19 (c : c19case) : list Z :=
   match c with
-  | CInvDb app _ _ ops => if own_accept_then_restart app 1 ops then [5] else []
   | CTokens secs probes =>
       if existsb (fun p => match nth_error secs (fst p), nth_error secs (snd p) with
                            | Some a, Some b => N.eqb (s_pub a) (s_pub b) && negb (N.eqb (s_bytes a) (s_bytes b))
